@@ -1721,6 +1721,11 @@ class Parallel(Logger):
                 detach_generator_exit = True
                 _parallel = self
 
+                # Stop dispatching right away: the callback threads must not
+                # register new jobs once this run is over.
+                with self._lock:
+                    self._aborting = True
+
                 class _GeneratorExitThread(threading.Thread):
                     def run(self):
                         _parallel._abort()
